@@ -51,26 +51,65 @@ class World:
                 return ctx.statics["reg_" + kind]          # the handles share the storages
             return h
 
+        from mirsmt.sym import TailCall
+
+        def cell_of(eng, ctx, p):
+            while isinstance(p, Ptr) and isinstance(eng.load_ptr(ctx, p), Ptr):
+                p = eng.load_ptr(ctx, p)
+            return p
+
+        def with_env(eng, ctx, cellp, op):
+            """A recorder on another thread may complete a push right before this bucket operation (each bucket operation is one
+            atomic step: C05's subject). The solver chooses whether it does; `env_pending` holds the values not yet pushed."""
+            pend = ctx.statics.get("env_pending", ())
+            if not pend:
+                return op(ctx)
+            tag = pend[0]
+            here = eng.fresh("concurrent_record_lands_before_this_bucket_operation", "bool")
+
+            def yes(c):
+                c.statics["env_pending"] = tuple(pend[1:])
+                cur = eng.load_ptr(c, cellp)
+                eng.store_ptr(c, cellp, MS.lvec(tuple(cur.data) + (tag,)))
+                c.observe("env_pushed", tag=tag, before=str(path_of.get(id(op), "bucket operation")))
+                return op(c)
+            return Fork([(here, yes), (z3.Not(here), op)])
+        path_of = {}
+
         def m_clear_with(eng, ctx, f, path, args, dty):
-            cellp = args[0]
-            while isinstance(cellp, Ptr) and isinstance(eng.load_ptr(ctx, cellp), Ptr):
-                cellp = eng.load_ptr(ctx, cellp)
-            cur = eng.load_ptr(ctx, cellp)
-            if not (isinstance(cur, Native) and cur.kind == "lvec"):
-                raise sym.Unsupported(f"clear_with on {cur}")
-            eng.store_ptr(ctx, cellp, MS.lvec(()))
-            from mirsmt.sym import TailCall
-            return TailCall(args[1], [cur])
+            cellp = cell_of(eng, ctx, args[0])
+
+            def op(c):
+                cur = eng.load_ptr(c, cellp)
+                if not (isinstance(cur, Native) and cur.kind == "lvec"):
+                    raise sym.Unsupported(f"clear_with on {cur}")
+                eng.store_ptr(c, cellp, MS.lvec(()))
+                return TailCall(args[1], [cur])
+            path_of[id(op)] = "clear_with"
+            return with_env(eng, ctx, cellp, op)
 
         def m_data_with(eng, ctx, f, path, args, dty):
-            cellp = args[0]
-            while isinstance(cellp, Ptr) and isinstance(eng.load_ptr(ctx, cellp), Ptr):
-                cellp = eng.load_ptr(ctx, cellp)
-            cur = eng.load_ptr(ctx, cellp)
-            if not (isinstance(cur, Native) and cur.kind == "lvec"):
-                raise sym.Unsupported(f"data_with on {cur}")
-            from mirsmt.sym import TailCall
-            return TailCall(args[1], [cur])
+            cellp = cell_of(eng, ctx, args[0])
+
+            def op(c):
+                cur = eng.load_ptr(c, cellp)
+                if not (isinstance(cur, Native) and cur.kind == "lvec"):
+                    raise sym.Unsupported(f"data_with on {cur}")
+                return TailCall(args[1], [cur])
+            path_of[id(op)] = "data_with"
+            return with_env(eng, ctx, cellp, op)
+
+        def m_data(eng, ctx, f, path, args, dty):
+            cellp = cell_of(eng, ctx, args[0])
+            return with_env(eng, ctx, cellp, lambda c: eng.load_ptr(c, cellp))
+
+        def m_clear(eng, ctx, f, path, args, dty):
+            cellp = cell_of(eng, ctx, args[0])
+
+            def op(c):
+                eng.store_ptr(c, cellp, MS.lvec(()))
+                return UNIT
+            return with_env(eng, ctx, cellp, op)
 
         def m_str_eq(eng, ctx, f, path, args, dty):
             return MC.key_eq(eng, ctx, args[0], args[1])
@@ -107,8 +146,8 @@ class World:
             r"get_or_create_counter$": m_get_or_create("Counter"), r"get_or_create_gauge$": m_get_or_create("Gauge"), r"get_or_create_histogram$": m_get_or_create("Histogram"),
             r"get_counter_handles$": m_handles("Counter"), r"get_gauge_handles$": m_handles("Gauge"), r"get_histogram_handles$": m_handles("Histogram"),
             r"AtomicBucket::clear_with$": m_clear_with, r"AtomicBucket::data_with$": m_data_with,
-            r"AtomicBucket::data$": lambda eng, ctx, f, path, args, dty: MC.load(eng, ctx, args[0]),
-            r"AtomicBucket::clear$": lambda eng, ctx, f, path, args, dty: m_clear_with(eng, ctx, f, path, [args[0], Native("callback", lambda e_, c_, f_, a_: UNIT)], dty),
+            r"AtomicBucket::data$": m_data,
+            r"AtomicBucket::clear$": m_clear,
             r"^Vec::extend_from_slice$": lambda eng, ctx, f, path, args, dty: (eng.store_ptr(ctx, args[0], MS.lvec(tuple(MC.load(eng, ctx, args[0]).data) + tuple(MC.load(eng, ctx, args[1]).data))), UNIT)[1],
             r"^KeyName::as_str$|^String::as_str$": lambda eng, ctx, f, path, args, dty: MC.load(eng, ctx, args[0]),
             r"^<&?str as PartialEq>::eq$|^<String as PartialEq>::eq$|^<KeyName as PartialEq>::eq$": m_str_eq,
@@ -168,6 +207,14 @@ def run_history(e3, name, steps, expect_fn, desc, bounds_extra=""):
             elif st[0] == "record":
                 cur = yield ("getstatic", handles[st[1]].data[1])
                 yield ("setstatic", handles[st[1]].data[1], MS.lvec(tuple(cur.data) + (st[2],)))
+            elif st[0] == "env":
+                yield ("setstatic", "env_pending", tuple(st[1]))
+            elif st[0] == "env_flush":
+                # whatever the concurrent recorder has not pushed yet is pushed now (its thread runs to completion)
+                pend = yield ("getstatic", "env_pending")
+                cur = yield ("getstatic", handles[st[1]].data[1])
+                yield ("setstatic", handles[st[1]].data[1], MS.lvec(tuple(cur.data) + tuple(pend or ())))
+                yield ("setstatic", "env_pending", ())
             elif st[0] == "snapshot":
                 s = yield ("call", snap_b, [recp])
                 snaps.append(s)
@@ -331,12 +378,39 @@ def scen_histogram(e3):
     run_history(e3, "c19_histogram_drain_once", steps, expect, "")
 
 
+def scen_histogram_concurrent(e3):
+    """a value recorded by another thread while a snapshot is being taken appears in exactly one snapshot (that one or the next)"""
+    a, x = z3.BitVec("a", 64), z3.BitVec("x", 64)
+    steps = [("register", "Histogram", z3.IntVal(5)), ("record", 0, a), ("env", [x]), ("snapshot",), ("env_flush", 0), ("snapshot",), ("snapshot",)]
+
+    def expect(snaps, eng, W):
+        def values(s):
+            if s is None or len(s) != 1:
+                return None
+            val = entry(s[0])[4]
+            if not (isinstance(val.discr, int) and val.discr == 2) or 2 not in val.v:
+                return None
+            v = val.v[2].f[0]
+            return list(v.data) if isinstance(v, Native) and v.kind == "lvec" else None
+        vs = [values(s) for s in snaps]
+        desc = "a value recorded on another thread while the snapshot is in progress appears in no snapshot or in two (or an earlier value does)"
+        if any(v is None for v in vs):
+            return [("concurrently_recorded_value_in_exactly_one_snapshot", desc, z3.BoolVal(True))]
+        allv = [t for v in vs for t in v]
+        # positions are concrete per path; the values are symbolic: count occurrences by identity of the term (a and x are distinct inputs)
+        cnt_x = sum(1 for t in allv if t.eq(x))
+        cnt_a = sum(1 for t in allv if t.eq(a))
+        first_has_a = any(t.eq(a) for t in vs[0])
+        return [("concurrently_recorded_value_in_exactly_one_snapshot", desc, z3.BoolVal(not (cnt_x == 1 and cnt_a == 1 and first_has_a and len(vs[2]) == 0)))]
+    run_history(e3, "c19_histogram_record_during_snapshot", steps, expect, "", bounds_extra="; one concurrent record() that may land before any bucket operation of the snapshot in progress (bucket operations atomic: C05)")
+
+
 def run(tier, seed, t0):
     e3 = _e3.E3("C19")
-    for nm, fn in (("c19_order_and_values", scen_order), ("c19_metadata", scen_metadata), ("c19_histogram_drain_once", scen_histogram)):
+    for nm, fn in (("c19_order_and_values", scen_order), ("c19_metadata", scen_metadata), ("c19_histogram_drain_once", scen_histogram), ("c19_histogram_record_during_snapshot", scen_histogram_concurrent)):
         try:
             fn(e3)
-        except sym.Unsupported as ex:
+        except _e3.ENC_ERRORS as ex:
             e3.error(nm, "MIR->SMT encoding of DebuggingRecorder / Snapshotter", ex)
     finish("C19", tier, seed, list(e3.res.obligations), t0, ASSUME + ["E3 callee models: " + ", ".join(sorted(e3.models))], sorted(e3.functions),
            explanation="MIR->SMT encoding of describe/register/update/snapshot histories of the DebuggingRecorder against a reference model")
